@@ -501,6 +501,81 @@ func TestVerifC25(t *testing.T) {
 		}
 	})
 
+	// the same for every length up to one vector block plus a full scalar tail (0..72), at four alignments: the end-around
+	// carry of the 8-byte scalar loop meets every seed here
+	parallel(4*63, func(k int, st *c25stats, a *c25arena) {
+		off := []int{0, 1, 7, 31}[k%4]
+		d := a.data
+		for n := 10 + k/4; n <= 10+k/4; n++ {
+			for _, fill := range []byte{0x00, 0xff, 0x01, 0x80} {
+				b := d[off : off+n : off+n]
+				for i := range b {
+					b[i] = fill
+				}
+				sum := c25refSum(b)
+				for _, s := range allSeeds {
+					want := c25refFold(sum, s)
+					st.note(n, s, want, sum)
+					st.direct++
+					if g := Checksum(b, s); g != want {
+						r.viol(fmt.Sprintf("Checksum != RFC 1071 sum [%s, content=const-fill x all seeds]", c25lenClass(n)), map[string]any{"len": n, "fill": fill, "offset": off, "seed": s, "got": g, "want": want})
+					}
+					if g := checksumAVX2(b, s); g != want {
+						r.viol(fmt.Sprintf("checksumAVX2 != RFC 1071 sum [%s, content=const-fill x all seeds]", c25lenClass(n)), map[string]any{"len": n, "fill": fill, "offset": off, "seed": s, "got": g, "want": want})
+					}
+				}
+				for i := range b {
+					b[i] = c25Poison
+				}
+			}
+		}
+	})
+
+	// carry chains: every buffer of up to 6 (thorough 7) 8-byte words drawn from {00..00, ff..ff, 01 00..00, 00..00 01} followed
+	// by a 0..7 byte tail of 0xff, x boundary seeds and the seeds 0x0001/0x0100/0x00fe/0xfe00 that complete a wrap
+	{
+		words := [][8]byte{{}, {0xff, 0xff, 0xff, 0xff, 0xff, 0xff, 0xff, 0xff}, {1}, {0, 0, 0, 0, 0, 0, 0, 1}}
+		maxW := mc.Pick(c, 6, 7)
+		cseeds := append(append([]uint16{}, r.seeds...), 0x0001, 0x0100, 0x00fe, 0xfe00, 0x0101)
+		var chain atomic.Int64
+		parallel(maxW, func(k int, st *c25stats, a *c25arena) {
+			nw := k + 1
+			d := a.data
+			total := 1
+			for i := 0; i < nw; i++ {
+				total *= len(words)
+			}
+			for code := 0; code < total; code++ {
+				for tail := 0; tail < 8; tail++ {
+					n := nw*8 + tail
+					b := d[3 : 3+n : 3+n]
+					cc := code
+					for i := 0; i < nw; i++ {
+						copy(b[i*8:], words[cc%len(words)][:])
+						cc /= len(words)
+					}
+					for i := nw * 8; i < n; i++ {
+						b[i] = 0xff
+					}
+					sum := c25refSum(b)
+					for _, s := range cseeds {
+						want := c25refFold(sum, s)
+						st.note(n, s, want, sum)
+						st.direct++
+						chain.Add(1)
+						if g := Checksum(b, s); g != want {
+							r.viol(fmt.Sprintf("Checksum != RFC 1071 sum [%s, content=carry-chain words]", c25lenClass(n)), map[string]any{"len": n, "bytes": fmt.Sprintf("%x", b), "seed": s, "got": g, "want": want})
+						}
+						if g := checksumAVX2(b, s); g != want {
+							r.viol(fmt.Sprintf("checksumAVX2 != RFC 1071 sum [%s, content=carry-chain words]", c25lenClass(n)), map[string]any{"len": n, "bytes": fmt.Sprintf("%x", b), "seed": s, "got": g, "want": want})
+						}
+					}
+				}
+			}
+		})
+		c.Set("carry_chain_evaluations", chain.Load())
+	}
+
 	// ---- (iii) large carry-saturating buffers
 	bigLens := []int{65535 - 64, 65535, 65536, 65537}
 	if c.Thorough() {
